@@ -207,9 +207,9 @@ Fixpoint widths_small (c : chunk) : bool :=
 Fixpoint date_requests (p : piece) : list str :=
   match p with
   | PArg nm args _ =>
-    if one_of nm "d" "date" then
+    if one_of nm (LIT "d") (LIT "date") then
       (if Nat.ltb 2 (length args) then []
-       else [match args with a :: _ => date_format_of a | [] => lit "%+" end])
+       else [match args with a :: _ => date_format_of a | [] => LIT "%+" end])
     else if group_name nm then
       match args with
       | [arg] => flat_map date_requests arg
